@@ -369,9 +369,10 @@ class WritableStream(io.RawIOBase):
                 command |= SIZE_SPECIFIED
                 struct.pack_into("<L", request, 4, size)
             SDO_STRUCT.pack_into(request, 0, command, index, subindex)
-            response = sdo_client.request_response(request)
+            response = self._request_response(request)
             res_command, = struct.unpack_from("B", response)
             if res_command != RESPONSE_DOWNLOAD:
+                self._done = True
                 raise SdoCommunicationError(
                     f"Unexpected response 0x{res_command:02X}")
         else:
@@ -380,6 +381,14 @@ class WritableStream(io.RawIOBase):
             command = REQUEST_DOWNLOAD | EXPEDITED | SIZE_SPECIFIED
             command |= (4 - size) << 2
             self._exp_header = SDO_STRUCT.pack(command, index, subindex)
+
+    def _request_response(self, request):
+        try:
+            return self.sdo_client.request_response(request)
+        except SdoError:
+            # The transfer is over, there is nothing left to finish in close()
+            self._done = True
+            raise
 
     def write(self, b):
         """
@@ -397,7 +406,7 @@ class WritableStream(io.RawIOBase):
                 raise AssertionError("More data received than expected")
             data = b.tobytes() if isinstance(b, memoryview) else b
             request = self._exp_header + data.ljust(4, b"\x00")
-            response = self.sdo_client.request_response(request)
+            response = self._request_response(request)
             res_command, = struct.unpack_from("B", response)
             if res_command & 0xE0 != RESPONSE_DOWNLOAD:
                 raise SdoCommunicationError(
@@ -421,7 +430,7 @@ class WritableStream(io.RawIOBase):
             command |= (7 - bytes_sent) << 1
             request[0] = command
             request[1:bytes_sent + 1] = b[0:bytes_sent]
-            response = self.sdo_client.request_response(request)
+            response = self._request_response(request)
             res_command, = struct.unpack("B", response[0:1])
             if res_command & 0xE0 != RESPONSE_SEGMENT_DOWNLOAD:
                 raise SdoCommunicationError(
@@ -668,6 +677,8 @@ class BlockDownloadStream(io.RawIOBase):
         self._last_bytes_sent = 0
         self._current_block = []
         self._retransmitting = False
+        # Set when the transfer failed, close() must not try to end it then
+        self._error = True
         command = REQUEST_BLOCK_DOWNLOAD | INITIATE_BLOCK_TRANSFER
         if request_crc_support:
             command |= CRC_SUPPORTED
@@ -697,6 +708,8 @@ class BlockDownloadStream(io.RawIOBase):
         logger.debug("Server requested a block size of %d", self._blksize)
         # CRC is only used if both client and server announced support for it
         self.crc_supported = bool(request_crc_support and res_command & CRC_SUPPORTED)
+        # The transfer has been initiated successfully
+        self._error = False
 
     def write(self, b):
         """
@@ -767,14 +780,20 @@ class BlockDownloadStream(io.RawIOBase):
         try:
             response = self.sdo_client.read_response()
         except SdoCommunicationError:
+            self._error = True
             self.sdo_client.abort(0x05040000)
+            raise
+        except SdoAbortedError:
+            self._error = True
             raise
         res_command, ackseq, blksize = struct.unpack_from("BBB", response)
         if res_command & 0xE0 != RESPONSE_BLOCK_DOWNLOAD:
+            self._error = True
             self.sdo_client.abort(0x05040001)
             raise SdoCommunicationError(
                 f"Unexpected response 0x{res_command:02X}")
         if res_command & 0x3 != BLOCK_TRANSFER_RESPONSE:
+            self._error = True
             self.sdo_client.abort(0x05040001)
             raise SdoCommunicationError("Server did not respond with a "
                                         "block download response")
@@ -816,6 +835,9 @@ class BlockDownloadStream(io.RawIOBase):
         if self.closed:
             return
         super(BlockDownloadStream, self).close()
+        if self._error:
+            # The transfer has failed or was aborted, there is nothing to end
+            return
         if not self._done:
             logger.error("Block transfer was not finished")
         command = REQUEST_BLOCK_DOWNLOAD | END_BLOCK_TRANSFER
